@@ -49,7 +49,7 @@ class Lab:
         return ("err", r.split(" ")[0])
 
 
-def build_objects(rng, n=4):
+def build_objects(rng, n=4, max_extra=2):
     """objects written by the real binary: multi-version, deduplicated content, sha256/sha512, padded versions,
     custom content directory, spec upgrade.  Returns (sandbox, [object dir paths])"""
     sb = phys.Sandbox()
@@ -71,7 +71,7 @@ def build_objects(rng, n=4):
         sb.run(a + [oid])
         sb.run(["cp", "-r", oid] + [os.path.join(sb.src, f) for f in rng.sample(["a.txt", "b.txt", "c.txt", "d", "g"], 3)] + ["--", "/"])
         sb.run(["commit", "-c", TS, "-n", "Me", "-a", "mailto:me@example.org", "-m", "first", oid])
-        for k in range(rng.randint(1, 2)):
+        for k in range(rng.randint(1, max_extra)):
             sb.run(["cp", oid, os.path.join(sb.src, rng.choice(["a.txt", "b.txt", "c.txt"])), "--", "n%d.txt" % k])
             if rng.random() < 0.5:
                 sb.run(["mv", "-i", oid, "a.txt", "--", "renamed.txt"])
